@@ -18,6 +18,7 @@ struct Gen {
     free_edges: Vec<u64>,
     next_edge: u64,
     txns: u64,
+    open: Vec<u64>, // transactions begun and neither committed nor aborted
     cur: u64,
 }
 
@@ -63,10 +64,63 @@ impl Gen {
                     }
                 }
             }
-            Op::Begin(_) => self.txns += 1,
-            Op::Commit(_) | Op::Bump => self.cur += 1,
+            Op::Begin(_) => {
+                self.txns += 1;
+                self.open.push(self.txns);
+            }
+            Op::Commit(t) => {
+                // (a conflicting commit does not bump; `cur` is only used to pick gc watermarks)
+                if self.open.contains(t) {
+                    self.cur += 1;
+                }
+                self.open.retain(|x| x != t);
+            }
+            Op::Abort(t) => self.open.retain(|x| x != t),
+            Op::Bump => self.cur += 1,
             _ => {}
         }
+    }
+    /// Letters of the class "transaction bookkeeping touches version chains": transactions held
+    /// open across steps, write-set registration of live / freshly created / multi-version
+    /// nodes and of the relationship, commit and abort.
+    fn txn_letters(&self, max_open: usize, both_isolations: bool) -> Vec<Vec<Op>> {
+        let mut l: Vec<Vec<Op>> = vec![];
+        if self.open.len() < max_open {
+            l.push(vec![Op::Begin(true)]);
+            if both_isolations {
+                l.push(vec![Op::Begin(false)]);
+            }
+        }
+        for t in &self.open {
+            for n in &self.live_nodes {
+                l.push(vec![Op::WriteNode(*t, *n)]);
+            }
+            if let Some((id, _, _)) = self.rel {
+                l.push(vec![Op::WriteEdge(*t, id)]);
+            }
+            l.push(vec![Op::Commit(*t)]);
+            l.push(vec![Op::Abort(*t)]);
+        }
+        l
+    }
+    /// reduced alphabet of the exhaustive transaction family
+    fn txn_family_letters(&self, step: usize, rel_family: bool) -> Vec<Vec<Op>> {
+        let val = step as i64 + 20;
+        let mut l = self.txn_letters(2, false);
+        l.push(vec![Op::Bump]);
+        if rel_family {
+            if let Some((id, _, _)) = self.rel {
+                l.push(vec![Op::SetEdge(id, 0, val)]);
+            }
+        } else {
+            if let Some(n) = self.live_nodes.first() {
+                l.push(vec![Op::SetProp(*n, 0, val)]);
+            }
+            if self.live_nodes.len() < 2 {
+                l.push(vec![Op::CreateNode(1)]);
+            }
+        }
+        l
     }
     /// the enabled letters (one relationship at a time, at most `max_nodes` nodes)
     fn letters(&self, step: usize, max_nodes: usize, with_gc: bool) -> Vec<Vec<Op>> {
@@ -127,6 +181,131 @@ fn exhaustive(len: usize, max_nodes: usize, with_gc: bool, out: &mut Vec<Vec<Op>
     go(len, max_nodes, with_gc, &Gen::new(), &mut vec![], 0, out);
 }
 
+/// Every history of `len` letters of the transaction family after `prefix`.
+fn exhaustive_txn(prefix: &[Op], len: usize, rel_family: bool, out: &mut Vec<Vec<Op>>) {
+    fn go(len: usize, rel_family: bool, g: &Gen, cur: &mut Vec<Op>, steps: usize, out: &mut Vec<Vec<Op>>) {
+        if steps == len {
+            out.push(cur.clone());
+            return;
+        }
+        for letter in g.txn_family_letters(steps, rel_family) {
+            let mut g2 = g.clone();
+            for op in &letter {
+                g2.apply(op);
+                cur.push(op.clone());
+            }
+            go(len, rel_family, &g2, cur, steps + 1, out);
+            for _ in &letter {
+                cur.pop();
+            }
+        }
+    }
+    let mut g = Gen::new();
+    for op in prefix {
+        g.apply(op);
+    }
+    let mut cur = prefix.to_vec();
+    go(len, rel_family, &g, &mut cur, 0, out);
+}
+
+/// Structured scripts: entity state before the transaction x what the transaction does (physical
+/// write and write-set registration in either order, one of them only, twice) x what happens in
+/// between (bump, another transaction committing the same / another entity / nothing) x
+/// commit or abort x what follows.
+fn scripted_txn(out: &mut Vec<Vec<Op>>) {
+    // (prefix, node?) : the entity is node 1 / relationship 1; `fresh` = created inside the txn
+    let node_pre: Vec<(&str, Vec<Op>)> = vec![
+        ("fresh", vec![]),
+        ("one-version", vec![Op::CreateNode(1), Op::SetProp(1, 0, 1), Op::Bump]),
+        ("written-at-current", vec![Op::CreateNode(1), Op::Bump, Op::SetProp(1, 0, 1)]),
+        ("multi-version", vec![Op::CreateNode(1), Op::SetProp(1, 0, 1), Op::Bump, Op::SetProp(1, 0, 2), Op::Bump, Op::AddLabel(1, 2), Op::Bump]),
+    ];
+    let rel_pre: Vec<(&str, Vec<Op>)> = vec![
+        ("rel-unlogged", vec![Op::CreateNode(1), Op::CreateNode(1), Op::CreateEdge(1, 2, vec![(0, 1)]), Op::Bump]),
+        ("rel-logged", vec![Op::CreateNode(1), Op::CreateNode(1), Op::CreateEdge(1, 2, vec![]), Op::SetEdge(1, 0, 1), Op::Bump, Op::SetEdge(1, 0, 2), Op::Bump]),
+    ];
+    for iso in [true, false] {
+        for (is_node, pres) in [(true, &node_pre), (false, &rel_pre)] {
+            for (name, pre) in pres.iter() {
+                let fresh = *name == "fresh";
+                // the transaction under test is the first one begun: id 1; a rival is id 2
+                let w: Op = if is_node {
+                    if fresh { Op::CreateNode(1) } else { Op::SetProp(1, 0, 50) }
+                } else {
+                    Op::SetEdge(1, 0, 50)
+                };
+                let w2: Op = if is_node { Op::SetProp(1, 1, 51) } else { Op::SetEdge(1, 1, 51) };
+                let reg = |t: u64| if is_node { Op::WriteNode(t, 1) } else { Op::WriteEdge(t, 1) };
+                let bodies: Vec<Vec<Op>> = vec![
+                    vec![w.clone(), reg(1)],
+                    vec![reg(1), w.clone()],
+                    vec![reg(1)],
+                    vec![w.clone()],
+                    vec![w.clone(), reg(1), w2.clone()],
+                    vec![w.clone(), reg(1), reg(1)],
+                    vec![w.clone(), Op::Bump, reg(1)],
+                    vec![Op::Bump, w.clone(), reg(1)],
+                    vec![w.clone(), reg(1), Op::Bump],
+                    vec![w.clone(), reg(1), Op::Bump, w2.clone(), reg(1)],
+                ];
+                let rivals: Vec<Vec<Op>> = vec![
+                    vec![],
+                    vec![Op::Begin(true), Op::Commit(2)],
+                    vec![Op::Begin(true), reg(2), Op::Commit(2)],
+                    vec![Op::Begin(iso), reg(2), Op::Abort(2)],
+                    vec![Op::Begin(true), if is_node { Op::WriteNode(2, 2) } else { Op::WriteNode(2, 1) }, Op::Commit(2)],
+                ];
+                let afters: Vec<Vec<Op>> = vec![
+                    vec![],
+                    vec![Op::Bump],
+                    vec![w2.clone()],
+                    vec![Op::GcAuto],
+                    vec![Op::Begin(true), w2.clone(), reg(3), Op::Commit(3)],
+                ];
+                for body in &bodies {
+                    if fresh && !matches!(body.iter().find(|o| !matches!(o, Op::Bump)), Some(Op::CreateNode(_))) {
+                        continue; // a fresh node must be created before it is registered
+                    }
+                    for (ri, rival) in rivals.iter().enumerate() {
+                        // the rival runs before the body or between body and finish
+                        for rival_first in [true, false] {
+                            if ri == 0 && !rival_first {
+                                continue;
+                            }
+                            for finish in [Op::Commit(1), Op::Abort(1)] {
+                                for after in &afters {
+                                    let mut s = pre.clone();
+                                    s.push(Op::Begin(iso));
+                                    // a rival numbered 2 is begun after transaction 1
+                                    if rival_first {
+                                        s.extend(rival.iter().cloned());
+                                        s.extend(body.iter().cloned());
+                                    } else {
+                                        s.extend(body.iter().cloned());
+                                        s.extend(rival.iter().cloned());
+                                    }
+                                    s.push(finish.clone());
+                                    // transaction ids in `after` assume a rival existed; renumber if not
+                                    let next_txn = if rival.is_empty() { 2 } else { 3 };
+                                    for op in after {
+                                        s.push(match op {
+                                            Op::WriteNode(_, n) => Op::WriteNode(next_txn, *n),
+                                            Op::WriteEdge(_, e) => Op::WriteEdge(next_txn, *e),
+                                            Op::Commit(_) => Op::Commit(next_txn),
+                                            o => o.clone(),
+                                        });
+                                    }
+                                    out.push(s);
+                                }
+                            }
+                        }
+                    }
+                }
+            }
+        }
+    }
+}
+
 fn random_case(rng: &mut Rng) -> Vec<Op> {
     let len = 12 + rng.usize(40);
     let mut g = Gen::new();
@@ -135,7 +314,7 @@ fn random_case(rng: &mut Rng) -> Vec<Op> {
         // mostly enabled letters, sometimes an arbitrary (possibly failing) op on ids 1..3
         if rng.chance(1, 8) {
             let n = 1 + rng.below(3);
-            let op = match rng.below(9) {
+            let op = match rng.below(10) {
                 0 => Op::SetProp(n, rng.below(2), step as i64),
                 1 => Op::RemoveProp(n, rng.below(2)),
                 2 => Op::AddLabel(n, 1 + rng.below(3)),
@@ -144,7 +323,8 @@ fn random_case(rng: &mut Rng) -> Vec<Op> {
                 5 => Op::DeleteEdge(n),
                 6 => Op::SetEdge(n, rng.below(2), step as i64),
                 7 => Op::Abort(1 + rng.below(3)),
-                _ => Op::Begin(rng.chance(1, 2)),
+                8 => Op::WriteNode(1 + rng.below(3), n),
+                _ => Op::WriteEdge(1 + rng.below(3), n),
             };
             // keep the generator's picture exact: only ops it can track
             if matches!(op, Op::CreateEdge(..)) {
@@ -154,7 +334,9 @@ fn random_case(rng: &mut Rng) -> Vec<Op> {
             ops.push(op);
             continue;
         }
-        let ls = g.letters(step, 3, true);
+        let mut ls = g.letters(step, 3, true);
+        // transactions held open, registering writes (each txn letter weighted like a store letter)
+        ls.extend(g.txn_letters(3, true));
         let letter = rng.pick(&ls).clone();
         for op in letter {
             g.apply(&op);
@@ -209,14 +391,37 @@ fn main() {
             exhaustive(k, 2, false, &mut seqs);
         }
         exhaustive(5, 2, true, &mut seqs);
+        let n_store = seqs.len() - before;
+        // class "transaction bookkeeping touches version chains"
+        let tl = if args.thorough() { 6 } else { 5 };
+        let before_txn = seqs.len();
+        let pre_a = vec![Op::CreateNode(1), Op::SetProp(1, 0, 1), Op::Bump];
+        let pre_b = vec![Op::CreateNode(1), Op::SetProp(1, 0, 1), Op::Bump, Op::SetProp(1, 0, 2)];
+        let pre_r = vec![Op::CreateNode(1), Op::CreateNode(1), Op::CreateEdge(1, 2, vec![(0, 1)]), Op::SetEdge(1, 0, 2), Op::Bump];
+        for k in 2..=tl {
+            exhaustive_txn(&pre_a, k, false, &mut seqs);
+            exhaustive_txn(&pre_r, k, true, &mut seqs);
+        }
+        for k in 2..tl {
+            exhaustive_txn(&[], k, false, &mut seqs);
+            exhaustive_txn(&pre_b, k, false, &mut seqs);
+        }
+        let n_txn_exh = seqs.len() - before_txn;
+        scripted_txn(&mut seqs);
+        let n_txn_script = seqs.len() - before_txn - n_txn_exh;
+        rep.count_n("family:store_exhaustive", n_store as u64);
+        rep.count_n("family:txn_exhaustive", n_txn_exh as u64);
+        rep.count_n("family:txn_scripted", n_txn_script as u64);
         rep.exhaustive = true;
         rep.exhaustive_note = format!(
             "{} histories: every history of up to {} enabled steps over 2 nodes + 1 relationship (create node, set/remove property, \
              add/remove label, delete node, create/set/delete relationship, bump current_version, begin+commit a transaction), and of {} \
-             steps with gc(cur-1)/gc(cur) added; plus PRNG histories of 12-50 steps over 3 nodes incl. failing ops (not exhaustive)",
+             steps with gc(cur-1)/gc(cur) added; every history of up to {} steps over {{begin SI (<= 2 open), txn_write_node /              txn_write_edge of every live entity on every open transaction, commit, abort, bump, set property, create node}} after four              prefixes (empty store, one-version node, node written at the current version, relationship with a logged write); {} scripted              transaction histories (entity state x write/registration order x rival transaction x commit/abort x follow-up, both isolation              levels); plus PRNG histories of 12-50 steps over 3 nodes with up to 3 open transactions incl. failing ops (not exhaustive)",
             seqs.len() - before,
             l,
-            5
+            5,
+            tl,
+            n_txn_script
         );
         let mut rng = Rng::new(args.seed);
         let n_rand = if args.thorough() { 60_000 } else { 6_000 };
